@@ -214,9 +214,12 @@ func oracle(h *rt.H, s *state, op string, out string) {
 		// every configured inbound failsafe port has an ACCEPT rule (IPv4 nets only)
 		for _, pp := range s.cfg.FailsafeInboundHostPorts {
 			want := fmt.Sprintf("-p %s -m multiport --destination-ports %d", pp.Protocol, pp.Port)
+			if pp.Net != "" {
+				want += " --source " + pp.Net // an inbound failsafe restricted to a net is restricted by SOURCE
+			}
 			found := false
 			for _, l := range lines {
-				if strings.Contains(l, want) && strings.HasSuffix(l, "--jump ACCEPT") {
+				if strings.Contains(l, want+" --jump ACCEPT") {
 					found = true
 				}
 			}
@@ -227,9 +230,12 @@ func oracle(h *rt.H, s *state, op string, out string) {
 	case w[0] == "static" && w[2] == "cali-failsafe-out":
 		for _, pp := range s.cfg.FailsafeOutboundHostPorts {
 			want := fmt.Sprintf("-p %s -m multiport --destination-ports %d", pp.Protocol, pp.Port)
+			if pp.Net != "" {
+				want += " --destination " + pp.Net
+			}
 			found := false
 			for _, l := range lines {
-				if strings.Contains(l, want) && strings.HasSuffix(l, "--jump ACCEPT") {
+				if strings.Contains(l, want+" --jump ACCEPT") {
 					found = true
 				}
 			}
